@@ -497,6 +497,10 @@ impl Scanner {
             ));
         }
 
+        if radix == 8 && numlit.contains(['8', '9']) {
+            return Err(self.error_at(self.pos, "invalid digit in octal literal"));
+        }
+
         let fac_start = numlit.len();
         if let Some('.') = self.next_char(fac_start) {
             numlit.push('.');
@@ -574,6 +578,12 @@ impl Scanner {
             Ok((Token::Literal(LitKind::Imag, numlit + "i"), char_count + 1))
         } else if numlit.find('.').is_some() {
             Ok((Token::Literal(LitKind::Float, numlit), char_count))
+        } else if radix == 10
+            && numlit.len() > 1
+            && numlit.starts_with('0')
+            && numlit.contains(['8', '9'])
+        {
+            Err(self.error_at(self.pos, "invalid digit in octal literal"))
         } else {
             Ok((Token::Literal(LitKind::Integer, numlit), char_count))
         }
